@@ -362,6 +362,54 @@ def gen_multipin(rng):
     return lines, None, feats
 
 
+def gen_fixed_branch(rng, direction, reverse, two_fixed):
+    """a fixed component in the interior of a branch that has to stretch: a longer parallel branch with an intermediate
+    node sets the separation of the branch ends.  All four directions, both listing orders, random node order of each
+    component.  Returns (lines, ground-truth unit positions, features)."""
+    opp = {'right': 'left', 'left': 'right', 'up': 'down', 'down': 'up'}
+    perp = rng.choice(['down', 'up'] if direction in ('right', 'left') else ['right', 'left'])
+    sizes = [Fraction(1, 2), Fraction(1), Fraction(3, 2), Fraction(2)]
+    low = [rng.choice(sizes) for _ in range(5 if two_fixed else 3)]          # s, F, s [, F, s]
+    need = sum(low)
+    a = rng.choice([Fraction(1), Fraction(2), Fraction(3)])
+    b = need + rng.choice([Fraction(1, 2), Fraction(1), Fraction(2), Fraction(3)]) - a
+    if b <= 0:
+        b = Fraction(1)
+        a = need + Fraction(1)
+    total = a + b
+    w = rng.choice([Fraction(1, 2), Fraction(1), Fraction(3, 2)])
+    ux, uy, _ = DIRS[direction]
+    px, py, _ = DIRS[perp]
+    pos = {}
+
+    def at(t, side):
+        return (ux * t + px * side, uy * t + py * side)
+    pos['1'], pos['2'], pos['7'] = at(0, 0), at(a, 0), at(total, 0)
+    nlow = len(low) + 1
+    lows = [str(i) for i in range(10, 10 + nlow)]
+    t = Fraction(0)
+    for i, n in enumerate(lows):
+        pos[n] = at(t, w)
+        if i < len(low):
+            t += low[i]
+    pos[lows[-1]] = at(total, w)          # the last stretchy component takes the slack in the ground truth
+
+    def cpt(name, n1, n2, d, size, extra=''):
+        if rng.random() < 0.5:
+            n1, n2, d = n2, n1, opp[d]
+        return '%s %s %s; %s=%s%s' % (name, n1, n2, d, dec(size), extra)
+    lines = [cpt('R1', '1', '2', direction, a), cpt('R5', '2', '7', direction, b),
+             cpt('W1', '1', lows[0], perp, w), cpt('W2', '7', lows[-1], perp, w)]
+    for i, sz in enumerate(low):
+        fixed = (i % 2 == 1)
+        lines.append(cpt('%s%d' % ('L' if fixed else 'C', i + 1), lows[i], lows[i + 1], direction, sz, ', fixed' if fixed else ''))
+    if reverse:
+        lines.reverse()
+    feats = {'fixed': True, 'free': False, 'offset': False, 'outside': False, 'cycle': True, 'multi_pin': False,
+             'template': 'fixed-in-stretched-branch'}
+    return lines, pos, feats
+
+
 def gen_network(rng, L):
     """random one-port tree drawn by NetlistMaker (horizontal / vertical) or LadderMaker (ladder)"""
     cnt = {'n': 0}
@@ -482,7 +530,7 @@ def run(chk, replay=None):
                                         'harness-side TikZ text scan (regular expressions)')
     chk.coverage['rule'] = ('each case = (raw netlist, node_spacing, placer method, draw options); generators: components on random '
                             'sub-lattices with ground-truth layout (all direction spellings incl. rotate, size, fixed, free, offset, '
-                            'slack sizes, loops), opamp / transformer / chip / shape templates, one-port network trees drawn by '
+                            'slack sizes, loops), fixed components inside branches stretched by a longer parallel branch (4 directions, both listing orders), opamp / transformer / chip / shape templates, one-port network trees drawn by '
                             'NetlistMaker / LadderMaker, hand corpus; non-trivial = a witness layout passes the Lean check (hints are '
                             'consistent) and Lcapy returned positions; distinct by netlist text, spacing, method')
     disagreements = []
@@ -549,6 +597,7 @@ def run(chk, replay=None):
     def violated_kind(lines, k, verdict):
         """structure of the violated hint in the model's constraint graph: a stretchy edge whose lower end has no
         incoming edge / whose upper end has no outgoing edge is a *dangling* branch"""
+        verdict = verdict.split(' ; all=')[0]
         m = re.match(r'fail item:\d+:hint:(.*)->(.*):Lcapy\.Layout\.Dir\.(\w+)$', verdict)
         if not m:
             return 'body' if ':body:' in verdict else 'other'
@@ -633,8 +682,13 @@ def run(chk, replay=None):
                 if method == 'graph' and len(masked_samples) < 3:
                     masked_samples.append({'netlist': lines, 'node_spacing': fstr(k), 'spec': verdict,
                                            'lcapy': {n: '%s,%s' % (fstr(x), fstr(y)) for n, (x, y) in pos.items()}})
+                failing = verdict.split(' ; all=')[1].split(',') if ' ; all=' in verdict else []
                 key2 = dict(key, failure=verdict.split(':')[0].replace('fail ', ''), violated=violated_kind(lines, k, verdict),
-                            lcapy_reports_conflict=('conflict' in printed))
+                            # a fixed-size item (fixed hint / rigid body) is among the violated ones
+                            violated_fixed=any(f.endswith(':f') for f in failing),
+                            # Lcapy's own Graph.check_positions / assign_stretchy1 messages, by kind
+                            lcapy_reports_conflict=('Distance conflict' in printed or 'will not fit' in printed),
+                            lcapy_reports_stretch_conflict=('Stretch conflict' in printed))
                 chk.counterexample(key2, dict(replay_base, lcapy={n: '%s,%s' % (fstr(x), fstr(y)) for n, (x, y) in pos.items()},
                                               spec=verdict, lcapy_messages=printed[:400]),
                                    'positions of placer %s violate a hint' % method)
@@ -682,6 +736,12 @@ def run(chk, replay=None):
         if i % 4 == 1:
             extra = {'scale': rng.choice([0.5, 2]), 'cpt_size': rng.choice([1, 2])}
         one_case(lines, k, truth if not feats['offset'] else None, feats, 'grid', extra)
+    for rep in range(1 if quick else 8):
+        for direction in DIRS:
+            for reverse in (False, True):
+                for two_fixed in (False, True):
+                    lines, truth, feats = gen_fixed_branch(rng, direction, reverse, two_fixed)
+                    one_case(lines, rng.choice(spacings), truth, feats, 'fixed-in-stretched-branch')
     for i in range(n_multi):
         lines, truth, feats = gen_multipin(rng)
         one_case(lines, rng.choice(spacings), truth, feats, 'multipin:' + feats['template'])
